@@ -5,7 +5,7 @@ import contracts.storage as ST
 import contracts.processor as PR
 import contracts.getiter as GI
 
-PROVED = [M.KFE_E, M.KFE_L, M.KILL_E, M.KILL_L, M.SEND_FROM_E, M.SEND_FROM_L, M.SEND_E, M.READ_E, ST.save_from, PR.tmp_iter, PR.stp_iter, GI.get_iter]
+PROVED = [M.can_fetch, M.KFE_E, M.KFE_L, M.KILL_E, M.KILL_L, M.SEND_FROM_E, M.SEND_FROM_L, M.SEND_E, M.READ_E, ST.save_from, PR.tmp_iter, PR.stp_iter, GI.get_iter]
 
 PROPERTY = Property(
     "C06", "other",
